@@ -42,6 +42,10 @@ theorem rewrite_src : (rewrite_seturl, rewrite_host, rewrite_set0) =
 theorem rewrite_reset_src : (rewrite_set1, rewrite_set2) =
     ("httphdr.XConnectingIP, r.In.Header.Get(httphdr.XConnectingIP)",
      "httphdr.XRequestID, r.In.Header.Get(httphdr.XRequestID)") := by decide
+/-- … and, last, the protocol switch is taken out of the outgoing request (third `fix:` commit). -/
+theorem rewrite_drop_upgrade_src : (rewrite_del0, rewrite_del1, hdr_name_connection, hdr_name_upgrade) =
+    ("hdrNameConnection", "hdrNameUpgrade", "\"Connection\"", "\"Upgrade\"") := by decide
+theorem model_upgrade_names : [hConnection, hUpgrade].map String.ofList = ["Connection", "Upgrade"] := by decide
 /-- `websvc.New` builds the handler from the configured target URL. -/
 theorem mount_src : mount_args = "l.TargetURL, c.ErrColl, addr, c.Timeout" := by decide
 
